@@ -434,6 +434,9 @@ func cmdReplay(args []string) int {
 }
 
 func init() {
+	propMeta["C11"] = propInfo{Level: "model_checking", Assumptions: rmcAssumptions,
+		Rule:        "every schedule up to the deviation bound of Shutdown (graceful; forced with the context cancelled at every point) from nine prefix states, alone and racing with a schedule, cancel or save; plus the persist loop under the virtual clock; an execution is distinct when its final runner state differs",
+		Explanation: "stateless DFS over thread interleavings of the real PipelineRunner under a controlled scheduler and virtual clock, with a recording data store"}
 	propMeta["C04"] = propInfo{Level: "model_checking", Assumptions: rmcAssumptions,
 		Rule:        "every schedule (up to the stated deviation bound, or unbounded where the happens-before cache closes the search) of small closed scenarios in which CancelJob races with a running, waiting or finished job; an execution is distinct when its final runner state differs",
 		Explanation: "stateless DFS over thread interleavings of the real PipelineRunner/Scheduler under a controlled scheduler"}
@@ -454,4 +457,17 @@ func init() {
 		"the scenario list (all pairs and chosen triples of exported operations against a live state) is the bound: accesses no scenario performs are not analysed"}, rmcAssumptions...),
 		Rule:        "every schedule up to the deviation bound of every pair (and chosen triples) of exported operations running against a finished, a running and a waiting job plus the persist loop, in a race-detector build; an execution is distinct when its final runner state differs",
 		Explanation: "stateless DFS over thread interleavings in a -race build with detector-invisible hand-offs"}
+}
+
+func init() {
+	if len(os.Args) > 3 && os.Args[1] == "scenarios" {
+		for i, sc := range x1Scenarios(os.Args[2], os.Args[3]) {
+			b := -1
+			if sc.Bound != nil {
+				b = *sc.Bound
+			}
+			fmt.Printf("%d %s bound=%d\n", i, sc.Name, b)
+		}
+		os.Exit(0)
+	}
 }
